@@ -215,6 +215,19 @@ func (fv *FV) loc(e ast.Expr, cx *Cx) *Loc {
 		return &Loc{kind: LVar, cell: cell, sort: u.sortOf(v.Type()), ty: v.Type()}
 	case *ast.SelectorExpr:
 		// package-qualified identifier?
+		if id, ok := x.X.(*ast.Ident); ok && cx.contract {
+			// contract text: `os.Stdout` names a package-level variable of an imported package
+			if _, bound := cx.env[id.Name]; !bound {
+				if pn, isPkg := fv.lookupIdent(id, cx).(*types.PkgName); isPkg {
+					if v, ok := pn.Imported().Scope().Lookup(x.Sel.Name).(*types.Var); ok {
+						cell := "g!" + v.Pkg().Name() + "." + v.Name()
+						fv.cellType[cell] = v.Type()
+						return &Loc{kind: LVar, cell: cell, sort: u.sortOf(v.Type()), ty: v.Type()}
+					}
+					return nil
+				}
+			}
+		}
 		if id, ok := x.X.(*ast.Ident); ok && !cx.contract {
 			if _, isPkg := u.Info.Uses[id].(*types.PkgName); isPkg {
 				if v, ok := u.Info.Uses[x.Sel].(*types.Var); ok {
@@ -245,6 +258,15 @@ func (fv *FV) loc(e ast.Expr, cx *Cx) *Loc {
 		if p, ok := b.Ty.Underlying().(*types.Pointer); ok && u.isHeapStruct(p.Elem()) {
 			fv.safety(cx.st, not(eq(b.T, "0")), "nil dereference", x.Pos(), cx)
 			return &Loc{kind: LObj, addr: b.T, ty: p.Elem()}
+		}
+		if p, ok := b.Ty.Underlying().(*types.Pointer); ok {
+			if _, isBasic := types.Unalias(p.Elem()).Underlying().(*types.Basic); isBasic {
+				// pointer to a value of basic type: one heap cell per pointed-to sort, keyed by the pointer value
+				// (P!Bool, P!Str, P!Int; named Ptr.Bool ... in modifies clauses). All pointers to the same sort may alias.
+				s := u.sortOf(p.Elem())
+				fv.safety(cx.st, not(eq(b.T, "0")), "nil dereference", x.Pos(), cx)
+				return &Loc{kind: LHeap, cell: "P!" + string(s), sort: s, addr: b.T, ty: p.Elem()}
+			}
 		}
 		if id, ok := unparen(x.X).(*ast.Ident); ok {
 			if v, ok := fv.lookupIdent(id, cx).(*types.Var); ok && fv.inout[v] {
@@ -364,6 +386,9 @@ var tInt = types.Typ[types.Int]
 var tBool = types.Typ[types.Bool]
 
 func (fv *FV) strLit(s string) string {
+	if s == "" {
+		return "str_empty" // the empty literal is the zero value of string
+	}
 	k, ok := fv.strLits[s]
 	if !ok {
 		k = len(fv.strLits) + 1
@@ -433,6 +458,12 @@ func (fv *FV) expr(e ast.Expr, cx *Cx) TV {
 		l := fv.loc(x, cx)
 		if l.kind == LObj {
 			return TV{T: l.addr, Ty: l.ty, S: SInt, Obj: true}
+		}
+		if l.kind == LHeap && strings.HasPrefix(l.cell, "P!") && !cx.contract && fv.dry == 0 {
+			// name the value read through the pointer: countermodels then show e.g. deref!strict@57 = false
+			c := fv.decl(fv.fresh("deref!"+exprText(x.X)), l.sort)
+			fv.emit(fmt.Sprintf("(assert (= %s %s))", c, fv.read(l, cx)))
+			return TV{T: c, Ty: l.ty, S: l.sort}
 		}
 		return TV{T: fv.read(l, cx), Ty: l.ty, S: l.sort}
 	case *ast.IndexExpr:
@@ -529,6 +560,9 @@ func (fv *FV) ident(x *ast.Ident, cx *Cx) TV {
 		if x.Name == "alloc" {
 			return TV{T: fv.get(cx.st, "alloc", SInt), Ty: tInt, S: SInt}
 		}
+		if p := fv.argAlias(x.Name); p != nil {
+			return fv.mk(fv.get(fv.entry, fv.varCell(p), u.sortOf(p.Type())), p.Type())
+		}
 	}
 	obj := fv.lookupIdent(x, cx)
 	switch o := obj.(type) {
@@ -553,6 +587,28 @@ func (fv *FV) ident(x *ast.Ident, cx *Cx) TV {
 		return TV{T: "1", Ty: o.Type(), S: SInt}
 	}
 	panic(refuse("identifier %s cannot be resolved (at %s)", x.Name, fv.pos(x.Pos())))
+}
+
+// argAlias: in the contract of a function literal, argN denotes its N-th parameter (entry value), so that the contract of a
+// function-typed parameter ("<fn>.<param>", written over arg0, arg1, ...) serves both the call site and the literal passed.
+func (fv *FV) argAlias(name string) *types.Var {
+	if fv.fn == nil || fv.fn.Lit == nil || fv.fn.Sig == nil || !strings.HasPrefix(name, "arg") {
+		return nil
+	}
+	k, err := strconv.Atoi(name[3:])
+	if err != nil || k < 0 || k >= fv.fn.Sig.Params().Len() {
+		return nil
+	}
+	for i := 0; i < fv.fn.Sig.Params().Len(); i++ {
+		if fv.fn.Sig.Params().At(i).Name() == name {
+			return nil // a real parameter of that name wins
+		}
+	}
+	p := fv.fn.Sig.Params().At(k)
+	if p.Name() == "" || p.Name() == "_" {
+		panic(refuse("contract uses %s but the literal's parameter %d has no name", name, k))
+	}
+	return p
 }
 
 func (fv *FV) isParam(v *types.Var) bool {
